@@ -195,3 +195,27 @@ func (ex *Exec) lavaLogConst(name string) int64 {
 }
 
 var _ = strings.Contains
+
+// math/bits.Len*: the library uses a 256-entry lookup table (symbolic index); modelled as an ite chain over powers of two.
+func init() {
+	lenModel := func(width int) Model {
+		return func(ex *Exec, fn *ssa.Function, args []Value) Value {
+			c := ex.ctx
+			x := ex.asTerm(args[0], "bits.Len")
+			if x.isConst {
+				return c.Int(int64(x.cInt.BitLen()))
+			}
+			res := c.Int(0)
+			for n := 1; n <= width; n++ {
+				// x >= 2^(n-1)  =>  Len >= n
+				res = c.Ite(c.Ge(x, c.IntBig(pow2(uint(n-1)))), c.Int(int64(n)), res)
+			}
+			return res
+		}
+	}
+	models["math/bits.Len64"] = lenModel(64)
+	models["math/bits.Len32"] = lenModel(32)
+	models["math/bits.Len16"] = lenModel(16)
+	models["math/bits.Len8"] = lenModel(8)
+	models["math/bits.Len"] = lenModel(64)
+}
